@@ -4,7 +4,7 @@ CONSTANTS
   Week = 3
   TMax = 165
   Vals = {0, 1, 3}
-  RMax = 12
+  RMax = 10
   AMax = 6
   VMax = 12
 INVARIANTS LAvg LReward LUnstake
